@@ -12,13 +12,13 @@ ASSUMPTIONS = ['only records that satisfy C01 are judged (field semantics of an 
                'number skipped is reported as skipped-invalid-matching',
                'QryLen may be last-first or last-first+1 (the +1 convention is pinned by C17)',
                'tolerance 0.051 for one-decimal formatting']
-MINIMUMS = {'files-with-1000+-records': 1, 'records-judged': {'quick': 1500, 'thorough': 20000}, 'reverse-records': {'quick': 300, 'thorough': 4000},
+MINIMUMS = {'files-with-1000+-records': 1, 'records-judged': {'quick': 1000, 'thorough': 20000}, 'reverse-records': {'quick': 300, 'thorough': 4000},
             'second-pass-records': {'quick': 100, 'thorough': 1500}, 'joined-records': {'quick': 20, 'thorough': 300}}
 CLASSES = ['clean', 'noisy', 'noisy', 'chimeric', 'indel', 'partial', 'partial']
 
 
 def plan(tier, seed):
-    n, c = (16, 25) if tier == 'quick' else (64, 95)
+    n, c = (16, 18) if tier == 'quick' else (64, 95)
     return [{'name': 'big', 'kind': 'big', 'seed': seed, 'nq': 1010 if tier == 'quick' else 5100}] + \
         [{'name': 'e2e%d' % i, 'kind': 'e2e', 'seed': seed, 'shard': i, 'cases': c} for i in range(n)]
 
